@@ -7,6 +7,7 @@ import (
 	"time"
 
 	"github.com/miekg/dns"
+	"github.com/semihalev/sdns/middleware"
 
 	"verifsim/authsim"
 	"verifsim/kit"
@@ -264,6 +265,7 @@ func execC12(sc *C12Scenario, tr *kit.Trace, res *kit.Result, ts *c12Transcript,
 		}
 		kz.Add() // rebuild apex
 	}
+	lameFired := 0 // lame-server behaviours that fired in this world
 	w.Hook = func(addr netip.Addr, q *simnet.Query, honest *authsim.Answer) []simnet.Reply {
 		if honest.Zone == nil {
 			return nil
@@ -296,6 +298,7 @@ func execC12(sc *C12Scenario, tr *kit.Trace, res *kit.Result, ts *c12Transcript,
 				m.SetEdns0(1232, o.Do())
 			}
 			res.Fault("lame:shallow-referral")
+			lameFired++
 			return world.PackReply(m, q)
 		}
 		if honest.Zone.Name == "lame.test." && sc.Lame != "" && sc.Lame != "shallow-referral" {
@@ -312,6 +315,7 @@ func execC12(sc *C12Scenario, tr *kit.Trace, res *kit.Result, ts *c12Transcript,
 				m.Ns = []dns.RR{&dns.NS{Hdr: dns.RR_Header{Name: "lame.test.", Rrtype: dns.TypeNS, Class: dns.ClassINET, Ttl: 3600}, Ns: "ns.lame.test."}}
 			}
 			res.Fault("lame:" + sc.Lame)
+			lameFired++
 			return world.PackReply(m, q)
 		}
 		if honest.Zone.Name == "keys.test." && honest.Zone.Signed && q.Msg.Question[0].Qtype != dns.TypeDNSKEY {
@@ -337,7 +341,45 @@ func execC12(sc *C12Scenario, tr *kit.Trace, res *kit.Result, ts *c12Transcript,
 		if res.Viol != nil {
 			return
 		}
-		for client := 0; client < 2; client++ {
+		firstOverBudget := false
+		for client := 0; client < 3; client++ {
+			if client == 2 {
+				// A third and a fourth client, the fourth a moment after the third was answered:
+				// inside the lifetime a cached failure would have. Only where the over-budget
+				// reply is the one failure in sight: every server of this world answers properly.
+				// ... and the data resolves once the budget allows: in a cycle or behind lame
+				// servers some part of the tree fails for real, and that failure may be cached.
+				resolvable := sc.Topology == "cname-chain" || sc.Topology == "fanout" || sc.Topology == "v6-fanout" || sc.Topology == "deep"
+				if !judge || sc.Mode != "enforce" || !firstOverBudget || lameFired > 0 || op.NoEDNS || !resolvable {
+					break
+				}
+				mk := func() *dns.Msg {
+					q := new(dns.Msg)
+					q.SetQuestion(op.Name, op.Type)
+					q.RecursionDesired = true
+					q.SetEdns0(1232, false)
+					return q
+				}
+				kit.SleepSettle(50 * time.Millisecond)
+				c3 := w.Ask(netip.MustParseAddrPort("10.9.0.3:40000"), "udp", mk())
+				kit.SleepSettle(300 * time.Millisecond)
+				sentBefore := w.Net.SentCount()
+				dialsBefore := len(w.Net.Dials)
+				crossedBefore := middleware.VerifFirewallExhaustions()
+				c4 := w.Ask(netip.MustParseAddrPort("10.9.0.4:40000"), "udp", mk())
+				kit.SleepSettle(qt + 4*time.Second)
+				quiet := w.Net.SentCount() == sentBefore && len(w.Net.Dials) == dialsBefore && middleware.VerifFirewallExhaustions() == crossedBefore
+				if len(c3.Replies) == 1 && len(c4.Replies) == 1 && lameFired == 0 {
+					m3, m4 := c3.Replies[0], c4.Replies[0]
+					res.Probes["follow-up-inside-failure-lifetime"]++
+					if m3.Rcode == dns.RcodeServerFailure && strings.Contains(edeText(m3), "budget") && m4.Rcode == dns.RcodeServerFailure && quiet {
+						res.Fail("C12/budget-failure-cached", "op %d %s/%s (topology %s n=%d, mode enforce): a client got the over-budget SERVFAIL (%q); a client asking 300 ms later was answered SERVFAIL (%q) with no upstream traffic and no work of its own that crossed a budget: the over-budget failure was served from a cache",
+							i, op.Name, dns.TypeToString[op.Type], sc.Topology, sc.N, edeText(m3), edeText(m4))
+						return
+					}
+				}
+				break
+			}
 			kit.SleepSettle(50 * time.Millisecond)
 			q := new(dns.Msg)
 			q.SetQuestion(op.Name, op.Type)
@@ -347,6 +389,7 @@ func execC12(sc *C12Scenario, tr *kit.Trace, res *kit.Result, ts *c12Transcript,
 			}
 			sentBefore := w.Net.SentCount()
 			dialsBefore := len(w.Net.Dials)
+			crossedBefore := middleware.VerifFirewallExhaustions()
 			t0 := time.Now()
 			c := w.Ask(netip.MustParseAddrPort(fmt.Sprintf("10.9.0.%d:40000", client+1)), "udp", q)
 			lat := time.Since(t0)
@@ -380,6 +423,9 @@ func execC12(sc *C12Scenario, tr *kit.Trace, res *kit.Result, ts *c12Transcript,
 			if !judge {
 				continue
 			}
+			if client == 0 && m.Rcode == dns.RcodeServerFailure && strings.Contains(edeText(m), "budget") {
+				firstOverBudget = true
+			}
 			ctx := fmt.Sprintf("op %d client %d %s/%s (topology %s n=%d, mode %s, max_outbound %d): reply %s after %v with %d upstream attempts", i, client, op.Name, dns.TypeToString[op.Type], sc.Topology, sc.N, sc.Mode, sc.MaxOutbound, dns.RcodeToString[m.Rcode], lat, attempts)
 			if lat > qt+500*time.Millisecond {
 				res.Fail("C12/not-terminating-in-time", "%s: exceeds the query timeout of %v", ctx, qt)
@@ -407,7 +453,15 @@ func execC12(sc *C12Scenario, tr *kit.Trace, res *kit.Result, ts *c12Transcript,
 				// A topology such as a glueless cycle also fails genuinely (no reachable
 				// authority), which may be cached under RFC 9520; what must not be served
 				// from a cache is the budget failure itself.
-				if m.Rcode == dns.RcodeServerFailure && attempts == 0 && strings.Contains(edeText(m), "budget") {
+				// A second client whose own tree ran out of budget on cached pieces alone (an
+				// alias cycle chased hop by hop out of the cache costs internal sub-queries) gets
+				// its own over-budget reply, with no upstream traffic either: the firewall's count
+				// of trees that crossed a budget tells the two apart.
+				ownCrossing := middleware.VerifFirewallExhaustions() > crossedBefore
+				if ownCrossing && attempts == 0 && m.Rcode == dns.RcodeServerFailure {
+					res.Probes["over-budget-on-cached-pieces-alone"]++
+				}
+				if m.Rcode == dns.RcodeServerFailure && attempts == 0 && !ownCrossing && strings.Contains(edeText(m), "budget") {
 					res.Fail("C12/budget-failure-cached", "%s: the first client's over-budget SERVFAIL was served to a second client without any upstream traffic", ctx)
 					return
 				}
